@@ -35,9 +35,9 @@ class Iter:
                 raise StopIteration
             mode = V.ENG.order_mode if hasattr(V.ENG, 'order_mode') else 'all'
             if mode == 'scoped':
-                # all orders inside the named functions' dynamic extent, a fixed order elsewhere
+                # all orders for iterations performed directly by the named functions, a fixed order elsewhere
                 scope = V.ENG.order_all_in
-                mode = 'all' if any(q in scope for q in V.CALL_STACK) else V.ENG.order_fallback
+                mode = 'all' if (V.CALL_STACK and V.CALL_STACK[-1] in scope) else V.ENG.order_fallback
             if mode == 'insertion':
                 k = 0
             elif mode == 'reverse':
